@@ -266,9 +266,9 @@ def prog_C18(ctx):
         ev += air['Mutations']
         ctx.cov['distinct_nontrivial'] = ctx.cov.get('distinct_nontrivial', 0) + len(air.get('MutationHist') or {})
     ctx.cov['evaluations'] = ev
-    ctx.cov['trusted_base'] += ['airgapped machine: no Lean model of the handlers (kyber DKG/VSS, ECIES, BLS); covered by fault injection on the real machine only: every operation a participant receives in a real ceremony is fed to a clone in structure-aware mutated forms (field deletion, type confusion, negative/huge integers, empty/oversized arrays, short identifiers, unknown types, truncated/bit-flipped/random/zero byte strings incl. nested JSON, reversed/huge signing ranges) behind a recover(); a refused operation must leave the database byte-identical',
+    ctx.cov['trusted_base'] = ctx.cov.get('trusted_base', []) + ['airgapped machine: no Lean model of the handlers (kyber DKG/VSS, ECIES, BLS); covered by fault injection on the real machine only: every operation a participant receives in a real ceremony is fed to a clone in structure-aware mutated forms (field deletion, type confusion, negative/huge integers, empty/oversized arrays, short identifiers, unknown types, truncated/bit-flipped/random/zero byte strings incl. nested JSON, reversed/huge signing ranges) behind a recover(); a refused operation must leave the database byte-identical',
                                 'byte-level coverage-guided fuzzing of the decoders is not part of this check (encoding/json is trusted)']
-    ctx.cov['rule'] += '; sszdiff: reversed/negative/huge ranges; airdiff: per operation of a ceremony a sample (quick) or all (thorough) of its mutations'
+    ctx.cov['rule'] = ctx.cov.get('rule', '') + '; sszdiff: reversed/negative/huge ranges; airdiff: per operation of a ceremony a sample (quick) or all (thorough) of its mutations'
 
 
 def prog_C06(ctx):
@@ -326,11 +326,11 @@ def prog_C13(ctx):
         ctx.cov['evaluations'] = ev + cr['Runs']
         ctx.cov['distinct_nontrivial'] = ctx.cov.get('distinct_nontrivial', 0) + len(cr.get('OutcomeHist') or {})
         ctx.cov['exhaustive'] = bool(cr.get('Exhaustive'))
-        ctx.cov['rule'] += '; crashdiff: quick = one kill per distinct (effect, handler, event) shape of a (2,2) ceremony (sampled to 45) + 6 runs with three kills; thorough = EVERY durable effect of a (2,2) and a (3,2) ceremony + 40 multi-kill runs each'
+        ctx.cov['rule'] = ctx.cov.get('rule', '') + '; crashdiff: quick = one kill per distinct (effect, handler, event) shape of a (2,2) ceremony (sampled to 45) + 6 runs with three kills; thorough = EVERY durable effect of a (2,2) and a (3,2) ceremony + 40 multi-kill runs each'
 
 
 def prog_C14(ctx):
-    generic(ctx, ['Dc4bcVerif.Props.C14', 'Dc4bcVerif.Props.C14Rounds', 'Dc4bcVerif.Props.C15', 'Dc4bcVerif.Props.SrcFacts'], 'nodediff', 'node', ['C14'], NODE_TRUSTED +
+    generic(ctx, ['Dc4bcVerif.Props.C14', 'Dc4bcVerif.Props.C14Rounds', 'Dc4bcVerif.Props.C14Tick', 'Dc4bcVerif.Props.C15', 'Dc4bcVerif.Props.SrcFacts'], 'nodediff', 'node', ['C14'], NODE_TRUSTED +
             ['translator: for every method of BaseOperationRepo whether it holds the repository mutex for its whole body and which repository/state calls it makes (Gen/Locks.lean), regenerated on every run; repo_rmw_locked is kernel-evaluated over it',
              'scheddiff: an API request and a poll tick of one real node run as two goroutines over the SAME services; every call on the state store or the board first asks a scheduler, which executes a plan with up to three pre-emptions (a thread that blocks on a lock held by the other is detected by a 60 ms timeout and the holder is resumed); the final state (pool, tombstones, rounds, signatures, offset, posted messages) must be that of one of the two serial orders, computed on the same snapshot',
              'assumed: Go mutexes give mutual exclusion and the memory model makes a locked read-modify-write one atomic step (the Lean pool operations put/del are such steps); LevelDB single Put/Get are atomic'],
@@ -341,7 +341,7 @@ def prog_C14(ctx):
         ctx.cov['evaluations'] = ev + sd['Schedules']
         ctx.cov['distinct_nontrivial'] = ctx.cov.get('distinct_nontrivial', 0) + len(sd.get('OutcomeHist') or {})
         ctx.cov['exhaustive'] = bool(sd.get('Exhaustive'))
-        ctx.cov['rule'] += '; scheddiff: three (request, message) pairs: ProcessOperation || poll(new proposal), ApproveParticipation || poll(new invitation), ResetFSMState || poll; per pair all single pre-emptions and a sample of double/triple ones (60 plans quick, 1500 thorough = exhaustive within 3 pre-emptions when the pair has few steps)'
+        ctx.cov['rule'] = ctx.cov.get('rule', '') + '; scheddiff: three (request, message) pairs: ProcessOperation || poll(new proposal), ApproveParticipation || poll(new invitation), ResetFSMState || poll; per pair all single pre-emptions and a sample of double/triple ones (60 plans quick, 1500 thorough = exhaustive within 3 pre-emptions when the pair has few steps)'
 
 
 AIR_TRUSTED = ['airdiff: real ceremonies; a machine with the mnemonic of a participant is fed the operations of that participant and is stopped (database closed), reopened from its database and rebuilt with ReplayOperationsLog at every restart point: before each operation, after the handler ran but before logging, after logging with the result file lost, and after every single step; every later result (compared up to the encodings that depend on Go map iteration order and ECIES randomness: deals by addressee, responses by verdict) and the final keyring must be those of a machine that never stopped',
